@@ -11,6 +11,11 @@ down to 1, maximum packet size 0, and a raw hostile peer (`chan.send_packet(MSG_
 sender-side accounting): DATA of any size / datatype, WINDOW_ADJUST of any value, EOF, CLOSE in any order while the
 victim's application pauses and resumes; compared: DATA sizes and WINDOW_ADJUST values on the wire, callbacks,
 ProtocolError or not.  Also the window / packet size advertised in CHANNEL_OPEN / OPEN_CONFIRMATION.
+Since fix ae15f0e data dropped after the local close() and the buffer discarded by it are credited with a
+WINDOW_ADJUST of their own (model: acceptData / discardRecv; theorems window_in_step_until_close_sent — sender window
++ in flight + buffered + credit in flight = receiver window until the receiver's CLOSE is out —, receiver_accounting
+with the ghost count `dropped`, dropped_data_is_credited, discarded_data_is_credited, tie
+dropped_data_credited_in_code; witness mutual_close_deadlock_preCredit / mutual_close_completes).
 Also (audit findings D2, D3, D4; repairs e7dbee0, afe8b9e, 9f86e20): pause_honoured_prop (while the application has
 reading paused nothing but its own resume makes the endpoint call data_received — a second `shell` request did before
 the repair: witness second_session_request_ended_pause_preFix, tie second_session_request_refused),
@@ -44,7 +49,10 @@ MANIFEST = {
             'within the granted window (sender_respects_window, data_packets_bounded); receive window + delivered = '
             'advertised (receiver_accounting), excess over delivered + buffered is ProtocolError, paused or not '
             '(receiver_enforces_window); the send loop terminates for every packet size (sender_progress, no_spin); '
-            'replenish rule equal to the expression regenerated from _deliver_data. '
+            'replenish rule equal to the expression regenerated from _deliver_data; data dropped after the local '
+            'close() or discarded by it is credited with its own WINDOW_ADJUST (fix ae15f0e: receiver_accounting counts '
+            'it, window_in_step_until_close_sent keeps the two windows equal until the CLOSE is out, witness '
+            'mutual_close_deadlock_preCredit for the code before). '
             'Two honest endpoints, every event sequence: no ProtocolError and no spinning loop (honest_no_protocol_error), '
             'a delivery is enabled whenever data is undelivered and the reader reads (no_deadlock_prop), every delivery '
             'decreases a potential (delivery_decreases_measure), hence every written byte is delivered '
@@ -172,6 +180,20 @@ def audit_cases() -> List[Dict[str, Any]]:
             ['app', 'b', 0, 'pause'], ['app', 'a', 0, 'write', None, '30313233343536373839' * 3], ['deliver', 'b'],
             ['req', 'a', 0], ['deliver', 'b'], ['deliver', 'a'], ['deliver', 'b'], ['deliver', 'b'],
             ['app', 'a', 0, 'write', None, '6162636465'], ['deliver', 'b'], ['deliver', 'a'], ['deliver', 'b']]})
+    # both applications close with more to send than the peer's window allows (fix ae15f0e): each drops what it
+    # receives, credits the window, and both get their data and their CLOSE out
+    out.append({'profile': 'directed', 'chans': [dict(BASE, wa=4, wb=4)], 'ops': [
+        ['app', 'a', 0, 'write', None, '3031323334353637'], ['app', 'b', 0, 'write', None, '4142434445464748'],
+        ['app', 'a', 0, 'close'], ['app', 'b', 0, 'close'], ['deliver', 'a'], ['deliver', 'b'], ['deliver', 'a'],
+        ['deliver', 'b'], ['deliver', 'a'], ['deliver', 'a'], ['deliver', 'b'], ['deliver', 'b']]})
+    # ... and with data buffered behind a pause when close() is called (discarded, credited)
+    out.append({'profile': 'directed', 'chans': [dict(BASE, wa=8, wb=8)], 'ops': [
+        ['app', 'a', 0, 'pause'], ['app', 'b', 0, 'pause'],
+        ['app', 'a', 0, 'write', None, '30313233343536373839414243444546'],
+        ['app', 'b', 0, 'write', None, '61626364656667686970717273747576'],
+        ['deliver', 'a'], ['deliver', 'b'], ['app', 'a', 0, 'close'], ['app', 'b', 0, 'close'],
+        ['deliver', 'a'], ['deliver', 'b'], ['deliver', 'a'], ['deliver', 'b'], ['deliver', 'a'], ['deliver', 'b'],
+        ['deliver', 'a'], ['deliver', 'b']]})
     # the request arrives while the reader is NOT paused: refused as well, nothing else happens
     out.append({'profile': 'directed', 'chans': [dict(BASE)], 'ops': [
         ['app', 'a', 0, 'write', None, '303132'], ['req', 'a', 0], ['deliver', 'b'], ['deliver', 'b'], ['deliver', 'a'],
